@@ -24,7 +24,7 @@ FORMAT = 1
 DEFAULT_SEED = 20261004
 
 QUICK_RUNS = {"C09": 1400, "C10": 1000, "C08": 6000}
-MIN_RUNS = {"C09": 560, "C10": 250, "C08": 800}
+MIN_RUNS = {"C09": 600, "C10": 250, "C08": 800}
 GEN_SIZE = 512
 MINIMISE_WALL_S = 240
 TITLES = {"C08": "identity caches and pickling across 1-2 interpreters",
@@ -273,6 +273,7 @@ def check(prop, tier, master, workers, budget_s, nruns, repo, write_evidence=Tru
             if cur is None or len(f["run"]["events"]) < len(cur["run"]["events"]):
                 classes[t] = f
     reported = []
+    unreproduced = []
     min_stats = []
     if classes and not status["harness"]:
         order = sorted(classes, key=lambda t: (len(classes[t]["run"]["events"]), t))
@@ -300,18 +301,21 @@ def check(prop, tier, master, workers, budget_s, nruns, repo, write_evidence=Tru
             vv = W.judge(small, tr)
             ts = {runner.triple(v) for v in vv}
             if t not in ts:
-                status["harness"].append("violation %r did not reproduce in a fresh interpreter" % (t,))
+                unreproduced.append("violation %r did not reproduce in a fresh interpreter" % (t,))
                 continue
             path = write_replay(prop, master, tier, small, vv, t, f["run"]["events"],
                                 runner.fired(small, tr), repo)
             ok, _ = replay_file(path, W, quiet=True)
             if not ok:
-                status["harness"].append("replay file %s did not reproduce" % path)
+                unreproduced.append("replay file %s did not reproduce" % path)
                 continue
             covered |= ts
             reported.append((t, path, small))
             min_stats.append({"class": list(t), "from": len(f["run"]["events"]),
                               "to": len(small["events"]), "runs": small.get("minimise_runs")})
+    if unreproduced and not reported:
+        # nothing that failed in the batch could be reproduced: that is a defect of the harness
+        status["harness"] += unreproduced
     if not degraded:
         W.check_replica()
     W.close()
@@ -376,6 +380,8 @@ def check(prop, tier, master, workers, budget_s, nruns, repo, write_evidence=Tru
     log("fault kinds fired: %s" % json.dumps(dict(sorted(agg["fired"].items()))))
     for line in kf_lines:
         log(line)
+    for u in unreproduced:
+        log("note: " + u)
     if status["harness"]:
         for h in status["harness"][:10]:
             log("HARNESS-ERROR: %s" % h)
@@ -483,6 +489,9 @@ def main(argv=None):
         if what == "selftest-mutants":
             from . import selftest
             return selftest.mutants(master, a.workers, a.arg)
+        if what == "selftest-benign":
+            from . import selftest
+            return selftest.benign(master, a.workers, a.arg)
         if what == "probe-io":
             from . import probe_io
             return probe_io.main(master, repo)
